@@ -1047,6 +1047,13 @@ func (g *Gen) applyContract(fc *FuncContract, pc *PkgContracts, pkg *types.Packa
 	site := fmt.Sprintf("%s#%d", name, g.callCount[name])
 	for i, c := range fc.Requires {
 		goal := g.evalBool(c.Expr, env)
+		if g.fc != nil && g.fc.DataflowOnly != "" {
+			// dataflow-only unit: the callee's own precondition (state invariants the unit cannot establish from
+			// havocked state) is assumed; what the contract states about this call (`callsite ... requires`) is checked
+			g.assume(g.curReach, goal)
+			g.addAssumption("dataflow-only unit " + g.unit + ": preconditions of contracted callees are assumed at its call sites")
+			continue
+		}
 		g.oblig("call-pre", site+"."+clauseName(c, i), goal, "precondition of "+name+": "+c.Src, pos, true)
 	}
 	if fc.Extern || fc.Trusted != "" {
